@@ -289,6 +289,7 @@ type SearchOpts struct {
 	Sink      NodePred
 	Barrier   NodePred                   // optional: exploration stops after such a node (node itself is not a sink)
 	BlockEdge func(b *cfg.Block, i int) bool // optional: edges that are not followed
+	BlockSink func(b *cfg.Block) bool        // optional: reaching the start of such a block is a hit (Hit.Node is nil)
 	// SinkBeforeBarrier: within one node both may match; by default barrier wins.
 }
 
@@ -317,6 +318,16 @@ func (f *Flow) Search(o SearchOpts) *Hit {
 			continue
 		}
 		seen[k] = true
+		if o.BlockSink != nil && l.Idx == 0 && o.BlockSink(l.B) {
+			var path []*cfg.Block
+			for b := l.B; b != nil; b = prev[b] {
+				path = append([]*cfg.Block{b}, path...)
+				if len(path) > 64 {
+					break
+				}
+			}
+			return &Hit{Loc: l, Path: path}
+		}
 		stopped := false
 		for i := l.Idx; i < len(l.B.Nodes); i++ {
 			n := l.B.Nodes[i]
